@@ -90,12 +90,22 @@ func deepCopy(v any) any {
 			out[k] = deepCopy(e)
 		}
 		return out
+	case *big.Int:
+		// a pointer: a query that changes the number in place changes the tree
+		if v == nil {
+			return v
+		}
+		return new(big.Int).Set(v)
 	}
 	return v
 }
 
 func restoreInPlace(cur, pristine any) {
 	switch p := pristine.(type) {
+	case *big.Int:
+		if c, ok := cur.(*big.Int); ok && c != nil && p != nil {
+			c.Set(p)
+		}
 	case map[string]any:
 		c, ok := cur.(map[string]any)
 		if !ok {
@@ -169,6 +179,11 @@ func (t *tree) seal() {
 			for _, x := range []any{vv.ScalarActual(), vv.ScalarSym()} {
 				if isContainer(x) {
 					h = true
+					t.mutable = true
+					t.snaps = append(t.snaps, snap{cur: x, pristine: deepCopy(x)})
+				} else if b, ok := x.(*big.Int); ok && b != nil {
+					// held by pointer: verified and repaired like a container, but a
+					// number cannot be reached through a jq value (no isolation needed)
 					t.mutable = true
 					t.snaps = append(t.snaps, snap{cur: x, pristine: deepCopy(x)})
 				}
@@ -562,18 +577,19 @@ func identKey(sb *strings.Builder, v any) {
 // ---- engine --------------------------------------------------------------------------
 
 type engine struct {
-	r         *core.Run
-	s         *fqrun.Session
-	fam       []qnode // all nodes (position 1)
-	core      []qnode // nodes for positions >= 2
-	drivers   map[string]string
-	isolated  map[string]*isoT
-	inSet     map[*decode.Value]bool // nodes that are enumerated as values (by some shard)
-	seen      map[uint64]bool        // carriers already expanded in this shard
-	maxLevel  int
-	samples   int
-	followAll bool // thorough: every parameter value of a first node is continued
-	only      string
+	r            *core.Run
+	s            *fqrun.Session
+	fam          []qnode // all nodes (position 1)
+	core         []qnode // nodes for positions >= 2
+	drivers      map[string]string
+	isolated     map[string]*isoT
+	unattributed int
+	inSet        map[*decode.Value]bool // nodes that are enumerated as values (by some shard)
+	seen         map[uint64]bool        // carriers already expanded in this shard
+	maxLevel     int
+	samples      int
+	followAll    bool // thorough: every parameter value of a first node is continued
+	only         string
 }
 
 func newEngine(r *core.Run, s *fqrun.Session) *engine {
@@ -681,7 +697,22 @@ func (e *engine) apply(items []*item, qs []qnode, full bool) (next []*item) {
 			if ev.pe != nil || e.mutated(part) != nil {
 				e.repair(part)
 				if !e.pinpoint(part, main, full) {
-					panic(fmt.Sprintf("c08: the driver panics or changes the tree but no single node does (%v)", ev.pe))
+					if ev.pe != nil {
+						panic(fmt.Sprintf("c08: the driver panics but no single node does (%v)", ev.pe))
+					}
+					// read-only queries changed a decoded tree, but no single (value, query)
+					// pair does so again on its own: still a change by read-only evaluation
+					t := part[0].origin.t
+					e.r.Violate("decode-value-changed-by-read-only-query:unattributed",
+						fmt.Sprintf("evaluating the read-only queries of layer %d on values of tree %s changed the decoded tree (tovalue of the root differs from what it was after decoding) and it could not be restored or attributed to one query", part[0].level, t.name),
+						map[string]any{"kind": "query", "tree": t.name, "path": part[0].origin.path, "chain": part[0].chain, "signature": "decode-value-changed-by-read-only-query:unattributed"})
+					e.unattributed++
+					if e.unattributed > 8 {
+						e.r.NotExhaustive("decoded trees keep changing under read-only queries; stopping")
+						return next
+					}
+					e.judgeChunk(ev, &next)
+					break
 				}
 				continue
 			}
